@@ -122,6 +122,18 @@ def ddl(dialect_name, fields):
     again = factory.create_table_statement()
     if again != first:
         return "-- asked a second time, the same factory answered differently:\n" + again
+    # how much the application logs does not change the statement
+    import logging
+    logger = logging.getLogger("cutplace")
+    before = logger.level
+    try:
+        for level in (logging.DEBUG, logging.CRITICAL):
+            logger.setLevel(level)
+            chatty = sql.SqlFactory(cid, "t", DMAP[dialect_name]).create_table_statement()
+            if chatty != first:
+                return "-- with the log level %s the statement is different:\n%s" % (logging.getLevelName(level), chatty)
+    finally:
+        logger.setLevel(before)
     return first
 
 
